@@ -217,11 +217,14 @@ func TestC20Snapshot(t *testing.T) {
 
 // ---- (b) shared validation / signing code ---------------------------------------------------------
 
+var pureRaceCase atomic.Int64
+
 func TestC20PureRace(t *testing.T) {
 	st := newPureStats("C20")
 	defer st.flush()
 	e := newC14Env()
 	rapid.Check(t, func(rt *rapid.T) {
+		pureRaceCase.Add(1)
 		nShared := 4 + rapid.IntRange(0, 8).Draw(rt, "shared")
 		var shared []sdk.Msg
 		for i := 0; i < nShared; i++ {
@@ -275,6 +278,10 @@ func TestC20PureRace(t *testing.T) {
 					// DID helpers and composite keys on shared values
 					_ = didtypes.ValidateDID("did:panacea:7Prd74ry1Uct87nZqL3ny7aR7Cg46JamVbJgk8azVgUm")
 					_ = didtypes.ValidateKeyType("EcdsaSecp256k1VerificationKey2019")
+					if it < 4 {
+						// key types never seen before by this process, different in every goroutine
+						_ = didtypes.ValidateKeyType(fmt.Sprintf("FutureKey-%d-%d-%d", pureRaceCase.Load(), gi, it))
+					}
 					k := &aoltypes.TopicCompositeKey{OwnerAddress: e.acct.Addr, TopicName: "a"}
 					bz, _ := compkey.Encode(k)
 					var back aoltypes.TopicCompositeKey
